@@ -11,6 +11,9 @@ CLAIMED = {
  "C03": ("writer/reader table extraction over the AST + must-facts (marshal/marshal_options vs parse, positions and option keys followed through locals to the constructor call), guard/field and guard-strength rules, registry completeness, codec-pair constant agreement for batching and the JSON bytes convention",
          "Decides the structural necessary conditions of round-tripping for all 25 classes: marshal and parse know the same option/detail keys, each key and list position is written from the attribute it is parsed into, each guard tests the field it emits and does not drop an admissible falsy value, every emitted list shape has an accepted length (lengths from the C08 interpretation); MESSAGE_TYPE_MAP maps every class under its own unique code; the four transport object serializers' batch framing agrees between serialize and unserialize (delimiter / length-prefix format, width, cursor advance, trailing check); the binary flag is the object serializer's BINARY; JSON bytes prefixes and inverse functions agree. Does not decide value fidelity of the third-party codecs.",
          "3 C03"),
+ "C04": ("correlation-table rules on CFG/must-facts: def-use of the request id through table key / record / message, must-precede (record before send, remove before complete), arm-wise table ownership in onMessage, nullness guards for Optional payload, option-key subset check",
+         "Decides on all paths of the six request APIs and the seven reply arms: one id allocation per request feeds the key of the API's own pending table, the record and the message (with the caller's URI/args/kwargs unmodified); the record exists before send and is removed with re-raise when send fails (call/publish); each reply arm consults only the table of its request kind with msg.request, an unknown id ends in ProtocolError; the record is removed before the pending result is completed, nothing completes twice on a path, the progressive path neither removes nor completes; Optional args/kwargs are never unpacked unguarded; option objects emit only keys the message constructor accepts; the id generator starts at 1 and wraps after 2^53. Does not decide exactly-once under all reply interleavings (histories).",
+         "3 C04"),
  "C05": ("typestate / guard-dominance analysis over CFG + call graph (must-facts dataflow, backwards argument tracing)",
          "Decides on all paths of the code: permitted predecessor states of every self.state writer, single guarded close-frame site, state==OPEN guard of every send API, legality of every close code/reason reaching sendCloseFrame, ownership and mutual exclusion of the close notification, closing-timer pairing. Does not decide the behaviour under all event interleavings or real-time bounds (runtime schedules).",
          "3 C05"),
